@@ -168,4 +168,3 @@ package nasType
 //@   loop 0 invariant buflen(rfc1035Reader) >= 0
 //@   loop 0 decreases buflen(rfc1035Reader)
 //@ end
-
